@@ -86,6 +86,8 @@ func checkWifDec(kind, s string) {
 			cls = "long"
 		case strings.Contains(err.Error(), "checksum"):
 			cls = "checksum"
+		case strings.Contains(err.Error(), "flag"):
+			cls = "flag"
 		}
 		il = "err " + cls
 		r.Hit("wifdec-err-" + cls)
@@ -110,6 +112,8 @@ func checkWifDec(kind, s string) {
 		r.PropFail("wif-flag-fields", fmt.Sprintf("DecodePrivateAddr(%q) (38-byte payload, flag byte %#02x) = (%d,%x,compressed=%v)", s, ref.payload[33], pa.Version, pa.Key, pa.IsCompressed()), rep)
 		return
 	case accepted && ref.nearOK:
+		// finding wif-flag-byte-unchecked (fixed in lib/btc/wallet.go: a 38-byte payload must have byte 33 = 01);
+		// the corpus keeps the witnesses, so this fires again if the guard is lost
 		r.PropFail("wif-flag-byte-unchecked", fmt.Sprintf("DecodePrivateAddr(%q) accepts a 38-byte payload whose compression flag byte is %#02x (not 01) as an uncompressed key; String() of the result is %q, a different string", s, ref.payload[33], restr), rep)
 	case accepted != ref.ok:
 		r.PropFail("wif-accept", fmt.Sprintf("DecodePrivateAddr(%q): accepted=%v but Base58Check/WIF validity is %v", s, accepted, ref.ok), rep)
@@ -135,6 +139,12 @@ func checkWifDec(kind, s string) {
 			return
 		}
 		mo = strings.Join(mf[:4], " ")
+	}
+	if (mo == "err flag" && il == "err checksum") || (mo == "err checksum" && il == "err flag") {
+		// wrong checksum AND wrong flag byte: both refusals apply, which one is reported first is not behaviour
+		if pl := ref.payload; len(pl) == 38 && pl[33] != 1 && !bytes.Equal(dsha(pl[:34])[:4], pl[34:]) {
+			mo = il
+		}
 	}
 	if mo != il {
 		r.TieFail("tie-wifdec", fmt.Sprintf("model/impl differ on DecodePrivateAddr(%q): impl=%q model=%q", s, il, mo), rep)
@@ -218,6 +228,10 @@ func wifStreams(g *vlib.Rng) {
 		bad[len(bad)-1] = refB58[(strings.IndexByte(refB58, bad[len(bad)-1])+1)%58]
 		checkWifDec("corpus", string(bad)) // wrong checksum
 	}
+	// witness of the fixed finding wif-flag-byte-unchecked (80 ‖ 00..01 ‖ 00, valid checksum) and the string it
+	// used to be re-encoded to (the compressed spelling of the same key is in the loop above)
+	checkWifDec("corpus-flag", "KwDiBf89QgGbjEhKnhXJuH7LrciVrZi3qYjgd9M7rFU73sMvhksF")
+	checkWifDec("corpus", "5HpHagT65TZzG1PH3CSu63k8DbpvD8s5ip4nEB3kEsreAnchuDf")
 	checkWifDec("corpus", "")
 	checkWifDec("corpus", "1")
 	checkWifDec("corpus", strings.Repeat("1", 37))
